@@ -391,8 +391,13 @@ func math10(n int) float64 {
 func genDur(r *Rng) laptimer.Duration {
 	if r.Chance(0.12) {
 		// nanosecond resolution next to a whole second or a whole hundredth
-		unit := Pick(r, []int64{1000000000, 10000000})
-		return laptimer.Duration(int64(1+r.Intn(7000))*unit + Pick(r, []int64{-1, -999, -1000, -1001, 1, 999, -500000}))
+		// ... or a whole minute (a rounded seconds part must carry into the minutes)
+		unit := Pick(r, []int64{1000000000, 10000000, 60000000000})
+		n := int64(1 + r.Intn(7000))
+		if unit == 60000000000 {
+			n = int64(1 + r.Intn(150))
+		}
+		return laptimer.Duration(n*unit + Pick(r, []int64{-1, -999, -1000, -1001, 1, 999, -500000, -4000000}))
 	}
 	switch r.Intn(5) {
 	case 0:
